@@ -127,6 +127,9 @@ func closuresByBranch(fn *ssa.Function, predName string) map[bool]*ssa.Function 
 
 func c05() []*Ob {
 	return []*Ob{
+		{Prop: "C05", ID: "C05.13", Engine: "LOCK(one hold)", Floor: 1,
+			Desc:  "an active fraction answers like a sealed one: TokenLIDs.GetLIDs takes the queued batch (getQueuedLIDs) with sortedMu held, so taking and merging are one critical section — with the drain in front of the lock a second reader of the token finds the queue empty, gets the merge mutex first and returns a list that lacks acknowledged documents",
+			Check: func(c *Ctx) { drainAndMergeInOneHold(c) }},
 		{Prop: "C05", ID: "C05.12", Engine: "WHO-MAY-WRITE(request fields)", Floor: 1,
 			Desc:  "every fraction is asked the same question: between the iterations of Searcher.SearchDocs the only fields of the request that are assigned are Limit (justified by calcEnsuredIDsCount) and From / To when they are cut at a timestamp as it is (inclusive, no +1 / -1 in the derivation of the new bound, also through a helper); the query, the order and the aggregations are those of the caller for every fraction — a time range narrowed past the millisecond of the last id found drops documents of later fractions that share the last id's millisecond, only when the fractions are searched in more than one iteration",
 			Check: func(c *Ctx) { sameQuestionForEveryFraction(c) }},
